@@ -599,8 +599,8 @@ def run(ctx):
     out = common.Outcome()
     out.proof = common.proof_status(FAMILY, PROPFILE)
     common.use_impl()
-    n_hist = ctx.scale(220, 4000)
-    n_sc = ctx.scale(36, 700)
+    n_hist = ctx.scale(400, 4000)
+    n_sc = ctx.scale(60, 700)
     hists = list(FIXED_HISTORIES) + [gen_history(ctx.rng) for _ in range(n_hist)]
     scens = list(FIXED_SCENARIOS) + [gen_scenario(ctx.rng) for _ in range(n_sc)]
     for it in corpus_items():
